@@ -50,6 +50,9 @@ static void mode_models() {
         Rng r(M.seed, c, 161);
         int model = (int)(c % 5);
         size_t n = pick_n(r);
+        // scale: a few instances of every model with more than 65536 samples (every residue of n/2 modulo 4)
+        const bool longn = ((c / 5) % 48 == 7);
+        if (longn) { static const size_t L[] = {65537, 65538, 65540, 65542, 70001, 131072, 131078}; n = L[(c / 240) % 7]; M.ev("models_with_more_than_65536_samples"); }
         double fmax = r.logu(1e10, 1e13), frev = r.logu(1e5, 1e7);
         std::ostringstream ds;
         switch (model) {
@@ -109,7 +112,7 @@ static void mode_models() {
             M.ev("model.collimator");
             break; }
         case 3: {   // parallel plates vs free space
-            if (n > 700) n = 200 + n % 500;
+            if (n > 700 && !longn) n = 200 + n % 500;
             double g = r.logu(0.01, 1.0), R = r.logu(1, 30);
             double f0 = C0 / (2 * PI * R);
             double nc = std::sqrt(2.0 / 3.0) * std::pow(PI * R / g, 1.5), fc = nc * f0;
@@ -117,9 +120,9 @@ static void mode_models() {
             fmax = fc * r.logu(12, 60) * 2;  // samples go up to fmax/2
             // one case in four: very wide gap (comparable to the bending radius) and frequencies thousands of times the cutoff, where
             // hundreds of plate modes contribute: the sum over modes must not be cut short
-            bool far = (c / 6) % 4 == 1;
+            bool far = (c / 6) % 4 == 1 && !longn;
             // a few cases: gap ten times the bending radius at harmonics of 1e5, where more than 65535 plate modes propagate and are summed
-            bool extreme = (c / 6) % 16 == 2;
+            bool extreme = (c / 6) % 16 == 2 && !longn;
             if (extreme) { far = false; n = 8 + n % 4; g = R * r.uni(8, 12); nc = std::sqrt(2.0 / 3.0) * std::pow(PI * R / g, 1.5); fc = nc * f0;
                            fmax = 2 * f0 * r.uni(0.8e5, 1.5e5) * (n - 1.0) / (n / 2); M.ev("pp_cases_with_more_than_65535_modes"); }
             if (far) { n = 48 + n % 32; g = R / r.logu(0.5, 4); nc = std::sqrt(2.0 / 3.0) * std::pow(PI * R / g, 1.5); fc = nc * f0; fmax = fc * r.logu(3000, 20000) * 2; M.ev("pp_far_above_cutoff_cases"); }
@@ -176,14 +179,24 @@ static void mode_factory() {
         double inner = coll ? r.uni(0.1, 1.6) * (radius > 0 ? radius : 0.01) : (r.chance(0.5) ? 0 : -0.01);
         std::string fname;
         std::vector<std::complex<float>> fz;
+        size_t m = n;
         if (file) {
             fname = "imp_" + std::to_string(c) + ".dat";
             std::ofstream f(fname);
-            for (size_t i = 0; i < n; i++) { float re = (float)r.uni(0, 10), im = (float)r.uni(-10, 10); fz.push_back({re, im}); f << i << " " << re << " " << im << "\n"; }
+            // four files in ten hold another number of records than requested (shorter, longer, one off): the result still has n samples,
+            // the file contributes where it has records (Impedance::operator+= adds over the common length)
+            if ((c / 32) % 5 >= 3) { size_t alt[] = {n / 2, n - 1, n + 1, 2 * n + 3, (size_t)1, n / 3 + 1}; m = std::max<size_t>(1, alt[r.range(0, 5)]); M.ev("factory_files_of_another_length"); }
+            for (size_t i = 0; i < m; i++) { float re = (float)r.uni(0, 10), im = (float)r.uni(-10, 10); fz.push_back({re, im}); f << i << " " << re << " " << im << "\n"; }
         }
-        std::ostringstream ds; ds << "factory n=" << n << " gap=" << gap << " csr=" << csr << " s=" << s << " xi=" << xi << " inner=" << inner << " file=" << file;
+        std::ostringstream ds; ds << "factory n=" << n << " file_records=" << (file ? (long)m : -1) << " gap=" << gap << " csr=" << csr << " s=" << s << " xi=" << xi << " inner=" << inner << " file=" << file;
         M.begin_case(c, ds.str());
-        auto z = makeImpedance(n, nullptr, (frequency_t)fmax, R, frev, gap, csr, s, xi, inner, fname);
+        std::shared_ptr<Impedance> z;
+        try { z = makeImpedance(n, nullptr, (frequency_t)fmax, R, frev, gap, csr, s, xi, inner, fname); }
+        catch (const std::exception&) {
+            // a refusal by exception is acceptable for a file that does not fit the request, never for one that does
+            if (file && m != n) { M.ev("factory_refused_file_of_another_length"); if (file) unlink(fname.c_str()); continue; }
+            throw;
+        }
         // expected contributions, each constructed separately
         double f0 = C0 / (2 * PI * R);
         std::vector<cd> want(n, 0); bool any = false;
@@ -194,7 +207,7 @@ static void mode_factory() {
             if (s > 0 && xi >= -1) { any = true; ResistiveWall p(n, (frequency_t)frev, (frequency_t)fmax, C0 / frev, s, xi, radius); for (size_t i = 0; i < n; i++) want[i] += cd(p[i].real(), p[i].imag()); }
             if (0 < inner && inner < radius) { any = true; CollimatorImpedance p(n, (frequency_t)fmax, radius, inner); for (size_t i = 0; i < n; i++) want[i] += cd(p[i].real(), p[i].imag()); }
         }
-        if (file) { any = true; for (size_t i = 0; i < n; i++) want[i] += cd(fz[i].real(), fz[i].imag()); }
+        if (file) { any = true; for (size_t i = 0; i < std::min(n, m); i++) want[i] += cd(fz[i].real(), fz[i].imag()); }
         M.ev("factory_calls");
         if (!any) M.ev("factory_nothing_selected");
         if ((z == nullptr) != !any) {
